@@ -419,7 +419,7 @@ func Gen(t *rapid.T, o Options) *Layout {
 		}
 		// a chain: a computed field that requires another subgraph's computed field (three
 		// dependent fetches in a row)
-		if len(extra) > 0 && m.nsub >= 2 && rapid.IntRange(0, 2).Draw(t, "reqchain") == 0 {
+		if len(extra) > 0 && m.nsub >= 2 && rapid.IntRange(0, 2).Draw(t, "reqchain") == 0 && !o.Exclude["requires-chain"] {
 			base := extra[0]
 			o2 := owner("reqchainown")
 			if o2 != base.owners[0] {
